@@ -43,6 +43,7 @@ CORE_NAMES = {
     150: "C18: record with an address outside the allow-list", 151: "C18: alive from a disallowed source had an effect",
     152: "C18: event announced an address outside the allow-list", 153: "C18: Members() lists an address outside the allow-list",
     160: "C06: suspicion timer registered iff suspect is broken", 161: "C06: declared dead before the minimum / still suspect after the maximum timeout",
+    162: "C06: declared dead earlier than the confirmation schedule allows (accuser / duplicate / stale timer counted)",
     170: "C09: a peer's dead/suspect hearsay removed a member directly",
 }
 FAMILIES["core"] = {
@@ -57,9 +58,23 @@ FAMILIES["core"] = {
                     "one operation = one nodeLock critical section; no alive delegate configured"],
 }
 
+FAMILIES["susp"] = {
+    "name": "susp", "props": ["C06"], "models": "Susp.v",
+    "harness": COMMON + ["zz_vf_susp_test.go"], "test": "TestVfSusp",
+    "n": {"quick": 600, "thorough": 20000},
+    "codes": [(160, 169, ["C06"])],
+    "code_names": {1: "undecodable case", 40: "Confirm results differ", 41: "firing instant differs",
+                   164: "C06: schedule table leaves [min,max], is not non-increasing, or T(k) != min (float formula / clamp)",
+                   165: "C06: timer fired outside [start+min, start+max] (or never)", 166: "C06: more than k confirmations accepted",
+                   167: "C06: the accuser's own confirmation was counted", 168: "C06: a confirmer was counted twice",
+                   169: "C06: with k < 1 the minimum timeout was not used"},
+    "assumptions": ["remainingSuspicionTime (float64 log) enters the model as the table the real function returned for the case's (k,min,max); T_ok is evaluated on it",
+                    "confirmation instants never coincide with a deadline (odd nanosecond offsets): equal-instant ordering is scheduler dependent"],
+}
+
 # a property may be served by several families (run in order); the first is its primary one
 PROPS = {}
-for f, d in FAMILIES.items():
+for f, d in sorted(FAMILIES.items(), key=lambda kv: 0 if kv[0] in ("susp", "queue") else 1):
     for p in d["props"]:
         PROPS.setdefault(p, []).append(f)
 PRIMARY = {"C06": "susp", "C09": "stream"}
